@@ -759,6 +759,9 @@ func (g *generator) genChains(max int) []string {
 	if g.r.Chance(0.08) {
 		out = append(out, "00ff", "00fe", "00fd")
 	}
+	if g.s.prop == "C21" && g.r.Chance(0.1) {
+		out = append(out[:1], "00") // a network identifier of one byte (the message validation takes it)
+	}
 	return out
 }
 
